@@ -1,11 +1,12 @@
 /-
   Proofs/Mvp60Witness.lean — what the cycle-accurate model of MVP-6.0 (`Model.Mvp60`, tied to the Go machine on every
-  generated case) computes on five small programs: proved counterexamples (kernel evaluation of the model) of the
+  generated case) computes on five small programs: proved counterexamples (kernel evaluation of the model; the runs are evaluated through `runFast`, which `Proofs.Mvp60Fast.runFast_eq_run` proves equal to `run`) of the
   behaviours recorded in KNOWN_FINDINGS.json for the first superscalar variant, next to the unpipelined machine
   (`Model.Seq.runMvp1`) on the same program.  Memory is 64 or 128 bytes of `0x11`.
 -/
 import MajoranaVerif.Model.Mvp60
 import MajoranaVerif.Model.SeqMachine
+import MajoranaVerif.Proofs.Mvp60Fast
 open GoInt
 
 namespace Proofs.Mvp60Witness
@@ -58,12 +59,12 @@ theorem drop_seq : obsSeq (Model.Seq.runMvp1 dropApp ⟨ctxS0 64, 0⟩ 10) 11 13
 
 /-- MVP-6.0 with one execute unit: `a1 = 0x11` (two instructions executed, 937 cycles) -/
 theorem drop_p1 : obs (run dropApp (ctxS0 64) 1 1 1000) 11 13 = (some .offEnd, 937, 2, 0x11#32, 0#32, m11) := by
-  decide +kernel
+  rw [← Proofs.Mvp60Fast.runFast_eq_run]; decide +kernel
 
 /-- MVP-6.0 with two execute units: the run ends normally after 319 cycles with `a1 = 0`; only ONE instruction (the
 branch) was ever executed -/
 theorem drop_p2 : obs (run dropApp (ctxS0 64) 2 2 1000) 11 13 = (some .offEnd, 319, 1, 0#32, 0#32, m11) := by
-  decide +kernel
+  rw [← Proofs.Mvp60Fast.runFast_eq_run]; decide +kernel
 
 /-! ### … and its line stays "pending" for ever: the next load of that line dead-locks
 
@@ -76,7 +77,7 @@ def deadApp : Model.Seq.App :=
     labels := GoMap.ofList [("l3", 12#32)] }
 
 theorem dead_p1 : obs (run deadApp (ctxS0 64) 1 1 1000) 11 12 = (some .offEnd, 989, 3, 0x11#32, 0x11#32, m11) := by
-  decide +kernel
+  rw [← Proofs.Mvp60Fast.runFast_eq_run]; decide +kernel
 
 /-- what is left of the two-unit machine after `n` ticks -/
 def deadObs (n : Nat) : Option Model.Seq.Halt × List (Int × Int) × List EuCo × List WuCo × FuCo × Nat :=
@@ -87,6 +88,14 @@ def deadObs (n : Nat) : Option Model.Seq.Halt × List (Int × Int) × List EuCo 
 line `[0, 64)` is pending, no counter is running, one instruction has been executed (nothing will ever change: see
 `Proofs.Mvp60Fast`) -/
 theorem dead_p2 : deadObs 700 = (none, [(0, 64)], [.prepare, .none], [.none, .none], .done, 1) := by
-  decide +kernel
+  simp only [deadObs]
+  rw [← Proofs.Mvp60Fast.runFast_eq_run]; decide +kernel
+
+/-- … and never will: the two-unit machine does not halt within ANY number of ticks -/
+theorem dead_forever (f : Nat) : (run deadApp (ctxS0 64) 2 2 (700 + f)).halt = none := by
+  have h : (run deadApp (ctxS0 64) 2 2 700).halt = none ∧ idle (run deadApp (ctxS0 64) 2 2 700).final = true ∧
+      counters (run deadApp (ctxS0 64) 2 2 700).final = [] := by
+    rw [← Proofs.Mvp60Fast.runFast_eq_run]; decide +kernel
+  exact Proofs.Mvp60Fast.deadlock_forever deadApp (ctxS0 64) 2 2 700 h.1 h.2.1 h.2.2 f
 
 end Proofs.Mvp60Witness
